@@ -143,6 +143,42 @@ def desugar_struct_objects(tree):
     return tree
 
 
+def split_divmod(tree):
+    """`q, r = divmod(a, b)` with side-effect-free operands (names, constants, attributes, len(...)) is `q = a // b; r = a % b`:
+    every rule then sees two ordinary assignments."""
+    def pure(e):
+        return all(isinstance(n, (ast.Name, ast.Constant, ast.Attribute, ast.Load, ast.BinOp, ast.operator, ast.Call)) and
+                   (not isinstance(n, ast.Call) or (isinstance(n.func, ast.Name) and n.func.id == 'len')) for n in ast.walk(e))
+
+    def fix(stmts):
+        out = []
+        for st in stmts:
+            for field in ('body', 'orelse', 'finalbody'):
+                if isinstance(getattr(st, field, None), list) and getattr(st, field) and isinstance(getattr(st, field)[0], ast.stmt):
+                    setattr(st, field, fix(getattr(st, field)))
+            for h in getattr(st, 'handlers', []) or []:
+                h.body = fix(h.body)
+            if isinstance(st, ast.Assign) and len(st.targets) == 1 and isinstance(st.targets[0], (ast.Tuple, ast.List)) and len(st.targets[0].elts) == 2 \
+                    and all(isinstance(t, ast.Name) for t in st.targets[0].elts) and isinstance(st.value, ast.Call) and isinstance(st.value.func, ast.Name) \
+                    and st.value.func.id == 'divmod' and len(st.value.args) == 2 and not st.value.keywords and pure(st.value.args[0]) and pure(st.value.args[1]):
+                q, r = st.targets[0].elts
+                a, b = st.value.args
+                names = {n.id for x in (a, b) for n in ast.walk(x) if isinstance(n, ast.Name)}
+                if q.id in names or r.id in names:
+                    out.append(st)
+                    continue
+                out.append(ast.copy_location(ast.Assign(targets=[q], value=ast.BinOp(left=clone([a])[0], op=ast.FloorDiv(), right=clone([b])[0])), st))
+                out.append(ast.copy_location(ast.Assign(targets=[r], value=ast.BinOp(left=clone([a])[0], op=ast.Mod(), right=clone([b])[0])), st))
+                continue
+            out.append(st)
+        return out
+    for n in ast.walk(tree):
+        if isinstance(n, (ast.FunctionDef, ast.AsyncFunctionDef)):
+            n.body = fix(n.body)
+    ast.fix_missing_locations(tree)
+    return tree
+
+
 def inline_hoisted_bound_methods(tree):
     """`add = self.xs.append` ... `add(v)`: a local that is bound once, to a method looked up on a receiver the function never
     rebinds, and only ever called, is that method call: `self.xs.append(v)`.  (A bound method keeps the receiver object; with the
@@ -355,6 +391,7 @@ class Index:
                     tree = desugar_struct_objects(tree)
                     tree = split_parallel_assignments(tree)
                     tree = split_chained_assignments(tree)
+                    tree = split_divmod(tree)
                     tree = inline_hoisted_bound_methods(tree)
                     set_parents(tree)
                     self.mods[rel] = Mod(rel, p, tree, raw.decode('utf-8', 'replace'))
